@@ -110,7 +110,9 @@ theorem leave_step
       leave env (n + 1) states name state raw data ctx retries st := by
   simp only [leave]
   split
-  · intro _; trivial
+  · split
+    · exact hH _ _ _ _ _ _ _ _
+    · intro _; trivial
   · split
     · exact hH _ _ _ _ _ _ _ _
     · split
